@@ -20,7 +20,7 @@ from .. import gen, sandbox
 from ..repo import asm_canon, index_canon
 from ..runner import digest_of
 from ..sched import Baton, PCTChooser, PhaseChooser, RandomWalkChooser, ReplayChooser
-from ..world import Fault, World, is_mutating_op
+from ..world import TICK_NS, Fault, World, is_mutating_op
 
 ID = "C15"
 LEVEL = "fault_enumeration"
@@ -87,7 +87,7 @@ def gen_case(rng, tier):
         hist.append({"op": "LOAD", "entry": _entry(rng), "dt": rng.choice([0, 1, 1, 2])})
     for _ in range(L):
         r = rng.random()
-        dt = rng.choice([0, 0, 1, 1, 2, 5, -3])  # -3: the clock jumps back (NTP step, another host's clock)
+        dt = rng.choice([0, 0, 1, 1, 2, 3, 4, 9, 20])  # quarter-seconds
         if r < 0.28:
             hist.append({"op": "LOAD", "entry": _entry(rng), "dt": dt})
         elif r < 0.48:
@@ -497,18 +497,14 @@ class Exec:
         w = self.world
         with w.suspend():
             try:
-                prev = os.stat(self.fa).st_mtime_ns // 1_000_000_000
+                prev = os.stat(self.fa).st_mtime_ns // TICK_NS
             except OSError:
                 prev = None
+            # "rewritten with a later mtime": at least one tick (0.25 s) after the
+            # FASTA's previous mtime, and never before now.  Nothing here looks at
+            # the cache files: a cache mtime that lies in the future is the code's
+            # own doing.
             when = w.clock if prev is None else max(prev + 1, w.clock)
-            # "rewritten with a later mtime": never older than what is already there,
-            # even if the clock has jumped back since the cache was written (a tie is
-            # allowed - that is what the strict comparison is for)
-            for rel in (FAI, AGP):
-                try:
-                    when = max(when, os.stat(os.path.join(self.root, rel)).st_mtime_ns // 1_000_000_000)
-                except OSError:
-                    pass
             if when > w.clock:
                 w.advance(when - w.clock)
             target = str(self.fa)
@@ -520,7 +516,7 @@ class Exec:
                     if os.path.lexists(self.fa):
                         os.unlink(self.fa)
                     os.symlink(os.path.join("store", "actual.fa"), self.fa)
-                    os.utime(self.fa, ns=(w.clock * 10**9, w.clock * 10**9), follow_symlinks=False)
+                    os.utime(self.fa, ns=(w.clock * TICK_NS, w.clock * TICK_NS), follow_symlinks=False)
             tmp = target + ".env"
             with open(tmp, "wb") as fh:
                 fh.write(self.blobs[v])
